@@ -6,7 +6,7 @@ PROP = "C07"
 
 
 def cfg(deep):
-    return "SPECIFICATION Spec\nCONSTANT Deep = %d\nINVARIANT MinShorter\nINVARIANT Emit\nCHECK_DEADLOCK FALSE\n" % deep
+    return "SPECIFICATION Spec\nCONSTANTS Deep = %d\n SpineLen = %d\nINVARIANT MinShorter\nINVARIANT Emit\nCHECK_DEADLOCK FALSE\n" % (deep, 3)
 
 
 def classify(m):
